@@ -32,14 +32,25 @@ def anchors_drifted(prop):
         return ['anchor check failed: %r' % (e,)]
 
 
+def observe(prop, cases, nworkers=None):
+    """real outputs for `cases` (crash-isolated worker processes; one column per configuration when the prop defines CONFIGS)"""
+    if getattr(prop, 'INPROCESS', False):
+        return [prop.real(c) for c in cases]
+    if getattr(prop, 'CONFIGS', None):
+        nw = nworkers or max(1, min(4, len(cases) // 400 + 1))
+        per_cfg = [core.run_real(prop.PID, cases, env=env, nworkers=nw) for _name, env in prop.CONFIGS]
+        return [{'configs': {name: o for (name, _e), o in zip(prop.CONFIGS, col)}} for col in zip(*per_cfg)]
+    return core.run_real(prop.PID, cases, env=getattr(prop, 'ENV', None), nworkers=nworkers)
+
+
 def evaluate(prop, cases, stats, jobs=None):
     """Run real code + model on `cases`; returns (violations, disagreements, records)."""
     t0 = time.time()
-    if getattr(prop, 'INPROCESS', False):
-        obs_list = [prop.real(c) for c in cases]
-    else:
-        obs_list = core.run_real(prop.PID, cases, env=getattr(prop, 'ENV', None))
+    obs_list = observe(prop, cases)
     for o in obs_list:
+        for oo in (o.get('configs', {}).values() if 'configs' in o else [o]):
+            if oo.get('err') == 'HarnessException':
+                raise core.HarnessError('real() failed inside the harness: %s' % oo.get('msg'))
         if o.get('err') == 'HarnessException':
             raise core.HarnessError('real() failed inside the harness: %s' % o.get('msg'))
     stats['t_real'] = stats.get('t_real', 0) + time.time() - t0
@@ -84,16 +95,14 @@ def shrink(prop, case, known):
         if not cands:
             break
         try:
-            if getattr(prop, 'INPROCESS', False):
-                obs = [prop.real(c) for c in cands]
-            else:
-                obs = core.run_real(prop.PID, cands, nworkers=1, env=getattr(prop, 'ENV', None))
+            obs = observe(prop, cands, nworkers=1)
             reps = core.lean_batch([prop.request(c, o) for c, o in zip(cands, obs)], shards=1)
         except core.HarnessError:
             break
         nxt = None
         for c, o, r in zip(cands, obs, reps):
-            if o.get('err') in ('HarnessException', 'NotRun'):
+            if o.get('err') in ('HarnessException', 'NotRun') or any(
+                    v.get('err') in ('HarnessException', 'NotRun') for v in o.get('configs', {}).values()):
                 continue
             if any(prop.known_match(k, c, o, r) for k in known):
                 continue
@@ -195,8 +204,7 @@ def run_check(pid, tier):
         if new:
             c, o, r = new[0]
             cmin = shrink(prop, c, known)
-            omin = (prop.real(cmin) if getattr(prop, 'INPROCESS', False)
-                    else core.run_real(prop.PID, [cmin], nworkers=1, env=getattr(prop, 'ENV', None))[0])
+            omin = observe(prop, [cmin], nworkers=1)[0]
             rmin = core.lean_batch([prop.request(cmin, omin)], shards=1)[0]
             path = core.replay_path(pid, '%s-%d' % (tier, seed))
             core.write_json(path, {'property': pid, 'kind': 'property-fails-on-real-code', 'seed': seed, 'tier': tier,
@@ -280,7 +288,7 @@ def run_replay(pid, path):
     if not ok:
         print(log)
         return 2
-    o = prop.real(c)
+    o = observe(prop, [c], nworkers=1)[0]
     drv = core.LeanDriver()
     try:
         r = drv.ask(prop.request(c, o))
